@@ -724,7 +724,7 @@ def tetFeatOk (s : Tetrahedron Float) (f : Feat) (p : V3 Rat) (t : Rat) : Bool :
 
 def tetPanicVerdict (S : Spec V3) (p : V3 Rat) (solid : Bool) : String :=
   if !S.valid then "skip shape-outside-domain"
-  else if !solid && S.mem p then "fail panic@interior-nonsolid" else "fail panic"
+  else if !solid && (S.mem p || S.bdist p ≤ ftol D3 p p) then "fail panic@interior-nonsolid" else "fail panic"
 
 def tetHandler (op : String) : Option Handler :=
   match op with
